@@ -12,4 +12,4 @@ pub use status::Status;
 pub use tag::Tag;
 pub use task::Task;
 pub use time::utc_timestamp;
-pub(crate) use time::Timestamp;
+pub(crate) use time::{utc_timestamp_opt, Timestamp};
